@@ -180,6 +180,13 @@ theorem inv_processCands (s : State) (th : Thread) (cands : List Nat) (slot : Na
   · exact hi
   · exact inv_stamp _ _ (inv_gop s _ _ hi)
 
+theorem inv_processExpired (s : State) (t : Nat) (th : Thread) (gs : List Nat) (evs : List Event) (hi : Inv s) :
+    Inv (processExpired s t th gs evs).1 := by
+  unfold processExpired
+  split
+  · exact inv_advance t _ _ _ _ hi
+  · exact inv_stamp _ _ hi
+
 theorem inv_stepThread (s : State) (t : Nat) (th : Thread) (hi : Inv s) : Inv (stepThread s t th).1 := by
   unfold stepThread
   simp only []
@@ -198,6 +205,8 @@ theorem inv_stepThread (s : State) (t : Nat) (th : Thread) (hi : Inv s) : Inv (s
     | exact inv_release s _ hi
     | exact inv_processCands _ _ _ _ _ _ _ _ (inv_step s _ hi)
     | exact inv_processCands _ _ _ _ _ _ _ _ (inv_release s _ hi)
+    | exact inv_processExpired _ t _ _ _ (inv_step s _ hi)
+    | exact inv_processExpired _ t _ _ _ (inv_release s _ hi)
     | exact inv_gotGuard _ t _ _ _ (inv_enqueue s _ hi)
     | exact inv_gotGuard _ t _ _ _ (inv_tryKey s _ hi)
     | exact inv_gotGuard _ t _ _ _ (inv_acquire s _ hi)
